@@ -30,6 +30,9 @@ Tails == {<<>>, <<"a">>, <<"b">>, <<"a", "b">>}
 ASSUME LawRep    == \A u \in Units, n \in 0..4, t \in Tails : UnitOk(u, {":"}) /\ RepLaw(u, n, t, {":"})
 
 \* ---- cases --------------------------------------------------------------------
+\* input classes (signatures): the boundary a length / count lies at
+Bucket(n) == IF n <= 2 THEN "<=2" ELSE IF n <= 24 THEN "~16" ELSE IF n <= 129 THEN "~128" ELSE IF n <= 257 THEN "~256"
+             ELSE IF n <= 4097 THEN "~4096" ELSE "~65536"
 R(B)  == B                                   \* a block list is emitted as it is: [["a", 4096], [":", 1]]
 RS(T) == [i \in DOMAIN T |-> T[i]]
 A(n) == Blk("a", n)
@@ -42,7 +45,7 @@ SplitTemplates(d, L) ==
 
 SplitCase(op, B, ds) ==
   LET D == {ds[i] : i \in DOMAIN ds} IN
-  [a |-> op, arg |-> [s |-> R(B), d |-> Join(ds), rle |-> TRUE], cls |-> "len=" \o ToString(BLen(B)),
+  [a |-> op, arg |-> [s |-> R(B), d |-> Join(ds), rle |-> TRUE], cls |-> "len" \o Bucket(BLen(B)),
    exp |-> [tokens |-> RS(BTokens(B, D)), tokens_joined |-> R(BNonDelim(B, D))]]
 
 PrefixPairs(L) ==
@@ -56,7 +59,7 @@ FileTemplates(L) ==
    <<A(1), Blk(SEP, 1), Bb(1), Blk(DOT, 1), Cc(L)>>,           \* long extension
    <<A(L), Blk(SEP, 1), Bb(1), Blk(DOT, 2), Cc(1)>>}           \* two dots
 FileCases(B, L) ==
-  LET c == "len=" \o ToString(BLen(B))
+  LET c == "len" \o Bucket(BLen(B))
       X == <<Blk(DOT, 1), Blk("d", L)>>
       G == <<Bb(L), Blk(DOT, 1), Cc(1)>>
       arg(extra) == [s |-> R(B), rle |-> TRUE] @@ extra
@@ -74,29 +77,35 @@ FileCases(B, L) ==
 RepCase(op, u, n, t, ds) ==
   LET D == {ds[i] : i \in DOMAIN ds}
       T == RepTokens(u, n, t, D)
-  IN [a |-> op, arg |-> [u |-> Join(u), n |-> n, tail |-> Join(t), d |-> Join(ds)], cls |-> "ntok~" \o ToString(n),
+  IN [a |-> op, arg |-> [u |-> Join(u), n |-> n, tail |-> Join(t), d |-> Join(ds)], cls |-> "ntok" \o Bucket(n),
       exp |-> [tokens_counted |-> [i \in DOMAIN T |-> [tok |-> Join(T[i][1]), count |-> T[i][2]]]]]
 
 \* many parameters: names[(i-1) % p + 1] = "v<i>" for i = 1..n; the last duplicate wins
-LastI(names, n, x) == LET S == {i \in 1..n : names[((i - 1) % Len(names)) + 1] = x}
+\* index of the last of the n parameters that is called x (0: none): closed form, proved equal to the search below for small n
+LastI(names, n, x) == LET p == Len(names)
+                          S == {n - ((n - j) % p) : j \in {k \in DOMAIN names : names[k] = x /\ k <= n}}
                       IN IF S = {} THEN 0 ELSE CHOOSE i \in S : \A j \in S : j <= i
+LastISearch(names, n, x) == LET S == {i \in 1..n : names[((i - 1) % Len(names)) + 1] = x}
+                            IN IF S = {} THEN 0 ELSE CHOOSE i \in S : \A j \in S : j <= i
 NamePatterns == {<<"k">>, <<"k", "m">>, <<"a", "k", "k">>, <<"m", "a", "a", "a", "a", "a", "a">>}
 RepQuery == <<"zz", "k", "m", "zz">>        \* an absent name first and last: a throwing getValue must not disturb the next query
 UrlRepCase(names, n) ==
-  [a |-> "UrlParseRep", arg |-> [t |-> "ty", f |-> "dir/f.e", names |-> names, n |-> n, q |-> RepQuery], cls |-> "nparams~" \o ToString(n),
+  [a |-> "UrlParseRep", arg |-> [t |-> "ty", f |-> "dir/f.e", names |-> names, n |-> n, q |-> RepQuery], cls |-> "nparams" \o Bucket(n),
    exp |-> [type |-> "ty", fileName |-> "dir/f.e",
             params |-> [i \in DOMAIN RepQuery |->
                           LET l == LastI(names, n, RepQuery[i]) IN
                           [n |-> RepQuery[i], has |-> (l > 0), throws |-> (l = 0), val |-> IF l = 0 THEN "" ELSE "v" \o ToString(l)]]]]
+
+ASSUME LawLastI == \A names \in NamePatterns, n \in 0..20, x \in {"k", "m", "a", "zz"} : LastI(names, n, x) = LastISearch(names, n, x)
 
 Counts == Lens \cup {0, 1, 2, 127, 128, 129}
 Cases ==
      UNION {{SplitCase("SplitChar", B, <<",">>) : B \in SplitTemplates(",", L)} : L \in Lens}
 \cup UNION {{SplitCase("Tokenize", B, <<":">>) : B \in SplitTemplates(":", L)} : L \in Lens}
 \cup UNION {{SplitCase("SplitSet", B, <<",", ";">>) : B \in SplitTemplates(",", L) \cup SplitTemplates(";", L)} : L \in Lens}
-\cup UNION {{[a |-> "Lcp", arg |-> [x |-> R(p[1]), y |-> R(p[2]), rle |-> TRUE], cls |-> "len=" \o ToString(L),
+\cup UNION {{[a |-> "Lcp", arg |-> [x |-> R(p[1]), y |-> R(p[2]), rle |-> TRUE], cls |-> "len" \o Bucket(L),
               exp |-> [lcp |-> R(BLcp(p[1], p[2]))]] : p \in PrefixPairs(L)} : L \in Lens}
-\cup UNION {{[a |-> "BeginsWith", arg |-> [x |-> R(p[1]), y |-> R(p[2]), rle |-> TRUE], cls |-> "len=" \o ToString(L),
+\cup UNION {{[a |-> "BeginsWith", arg |-> [x |-> R(p[1]), y |-> R(p[2]), rle |-> TRUE], cls |-> "len" \o Bucket(L),
               exp |-> [ret |-> BIsPrefixOf(p[2], p[1])]] : p \in PrefixPairs(L)} : L \in Lens}
 \cup UNION {UNION {FileCases(B, L) : B \in FileTemplates(L)} : L \in Lens}
 \cup {RepCase(op, u, n, t, <<":">>) : op \in {"SplitCharRep", "TokenizeRep", "SplitSetRep"}, u \in Units, n \in Counts, t \in Tails}
